@@ -71,7 +71,7 @@ UNIT = {
      "ensures": ["final(self).state.inv()",
                  "forall|j: K| final(self).state.tracked(j) == old(self).state.tracked(j)",
                  "forall|j: K| j != *key && old(self).state.tracked(j) ==> final(self).state.cost(j) == old(self).state.cost(j)"],
-     "splices": [{"before": "if state.window.contains(key) {", "insert": [
+     "splices": [{"at_start": True, "insert": [
        "proof {",
        "  let k = *key; let w = old(self).state.window.view();",
        "  lemma_without_keys(w, k); lemma_without_cost(w, k); lemma_without_nodup(w, k); lemma_without_total(w, k); lemma_total_nonneg(without(w, k));",
@@ -83,7 +83,7 @@ UNIT = {
      "requires": ["old(self).state.inv()"],
      "ensures": ["final(self).state.inv()", "!final(self).state.tracked(*key)",
                  "forall|j: K| j != *key ==> final(self).state.tracked(j) == old(self).state.tracked(j) && final(self).state.cost(j) == old(self).state.cost(j)"],
-     "splices": [{"before": "if state.window.remove(key).is_some() {", "insert": [
+     "splices": [{"at_start": True, "insert": [
        "proof {",
        "  let k = *key; let st = old(self).state;",
        "  lemma_without_keys(st.window.view(), k); lemma_without_cost(st.window.view(), k); lemma_without_nodup(st.window.view(), k); lemma_without_total(st.window.view(), k);",
@@ -117,7 +117,7 @@ UNIT = {
                  "evict_post(&old(self).state.main, &final(self).state.main, r.0@, r.1)",
                  # TinyLFU evicts from the main segments only: the window (<= window_target_cost) is drained by admissions
                  "r.1 >= cost_to_free || (forall|k: K| !final(self).state.main.tracked(k))"],
-     "splices": [{"before": "if cost_to_free == 0 {", "insert": [
+     "splices": [{"at_start": True, "insert": [
        "proof { lemma_total_nonneg(old(self).state.window.view()); lemma_total_nonneg(old(self).state.main.probationary.view()); lemma_total_nonneg(old(self).state.main.protected.view()); }"]}],
      "obligation": {"id": "policy.v.tinylfu.evict", "props": ["C14"], "bound": "unbounded"}},
     {"kind": "fn", "name": "clear", "impl": PIMPL,
@@ -149,7 +149,7 @@ UNIT = {
        "decreases state.window.view().len()",
      ]}],
      "splices": [
-       {"after": "state.sketch.increment(key);", "insert": [
+       {"at_start": True, "insert": [
          "proof {",
          "  let k = *key; let w = old(self).state.window.view();",
          "  lemma_without_keys(w, k); lemma_without_cost(w, k); lemma_without_nodup(w, k); lemma_without_total(w, k); lemma_total_nonneg(without(w, k));",
